@@ -17,9 +17,10 @@ CONSTANTS
   Actuations <- L_Bool
   GroupOns <- L_Bool
   Acts <- AllPresets
-  MaxSteps = 6
+  MaxSteps = 4
+  MaxOff = 5
   Variant = "doc"
-  Bound = 4096
+  Bound = 1024
   BoundRK = 64
 
 INVARIANT TypeOK
